@@ -22,6 +22,10 @@ ASSUMPTIONS = [
     "ST/A/R files and timer/counter writes are outside the property; leading zeros, counts on bit addresses and I/O words beyond 4 are don't-cares",
     "reference data-table model: N,B,S,I,O 1 word; F,L 2 words; T,C 3 words (control, PRE, ACC); one word in six of the random memory image is an edge value "
     "(0, 1, 0x7FFF, 0x8000, 0xFFFF: an idle timer has PRE / ACC 0)",
+    "the node is free to: detect duplicates the DF1 way (same command and transaction number as the previous command -> the reply is repeated, nothing is "
+    "executed; half of the scenarios), choose any session handle (a third of the scenarios: one whose bytes look like a protocol marker), refuse what does not "
+    "fit the negotiated connection size; several addresses in one write() call are each applied and nothing else changes; a quarter of the {count} writes "
+    "carry up to 234 data bytes",
 ]
 ANCHORS = [
     ("pycomm3/slc_driver.py", "parse_tag"), ("pycomm3/slc_driver.py", "SLCDriver._read_tag"), ("pycomm3/slc_driver.py", "SLCDriver._write_tag"),
@@ -43,9 +47,11 @@ def gen_address(rng, for_write, files=FILES):
         f = rng.choice(FILES[t])
         if rng.random() < 0.35:
             # reads up to the 236 data bytes a PCCC typed read carries (replies of 257..280 bytes cross the 256-byte recv of the
-            # transport); writes stay small
-            big = not for_write and rng.random() < 0.4
-            cnt = rng.randint(2, min((118 if big else 40) if t in "NB" else (59 if big else 20), 256 - elem)) if elem < 255 else None
+            # transport); a quarter of the writes are as large (up to 234 data bytes: requests of about 260 bytes, beyond what a
+            # connection smaller than the standard 500 bytes would carry)
+            big = rng.random() < (0.25 if for_write else 0.4)
+            top_ = (117 if for_write else 118) if t in "NB" else (58 if for_write else 59)
+            cnt = rng.randint(2, min(top_ if big else (40 if t in "NB" else 20), 256 - elem)) if elem < 255 else None
             if cnt:
                 return case(f"{t}{f}:{elem}") + "{%d}" % cnt
         return case(f"{t}{f}:{elem}")
@@ -129,6 +135,14 @@ def run(ctx):
             dev = refslc.SLCDevice(rt.Identity(name="1747-L552/C SLC 5/05"), rng, b.log, tab)
             pol = rt.Policy()
             pol.accept_large_fo = rng.random() < 0.5
+            if sci % 3 == 1:
+                # the session handle is the target's choice - also one whose bytes look like something else in the frame (0xCB is the
+                # reply code of the Execute PCCC service, 0x4B the request code, 0x0F the PCCC command)
+                pol.next_session_handle = rng.choice([0x000000CB, 0x0000CB00, 0x00CB0000, 0xCB000000, 0x0000004B, 0x4B000000, 0x0F000000, 0x00070000])
+                res.count("sessions-whose-handle-looks-like-a-protocol-marker")
+            # half of the nodes detect duplicates the DF1 way: a command with the transaction number of the previous one is not executed
+            # again, its reply is repeated
+            dev.duplicate_detection = sci % 2 == 0
             t = rt.RefTarget(rng, front=dev, routes={((1, 0),): dev}, policy=pol, log=b.log)
             b.set_target(t)
             drv = p.SLCDriver(b.host)
@@ -167,6 +181,9 @@ def run(ctx):
                         [gen_address(rng, False) for _ in range(rng.choice([2, 4]))],
                     ])
                     work.append(("multiread", group))
+                    # ... and several addresses in ONE write() call: every one of them is written
+                    es_ = rng.sample(range(200), 4)
+                    work.append(("multiwrite", rng.sample([f"N7:{es_[0]}", f"N7:{es_[1]}", f"B3:{es_[2]}", f"F8:{es_[3]}", f"N7:{es_[2]}"], rng.choice([2, 3, 4]))))
                 elif r < 0.05:
                     work.append((rng.choice(["read", "write"]), gen_address(rng, rng.random() < 0.5, ABSENT)))
                 elif r < 0.08:
@@ -196,6 +213,33 @@ def run(ctx):
                             res.violation("multi-address-read-wrong-value", f"read{tuple(t_ for t_, _ in parsed)!r}: the result for {tx!r} is {tg_!r:.120}; the data table holds {want!r:.60}",
                                           {"addresses": [t_ for t_, _ in parsed], "address": tx})
                             break
+                    continue
+                if op == "multiwrite":
+                    parsed = [(tx, refslc.parse_address(tx)) for tx in text]
+                    parsed = [(tx, a_) for tx, a_ in parsed if isinstance(a_, dict) and refslc.device_accepts(tab, a_)]
+                    if len(parsed) < 2:
+                        continue
+                    vals_ = [value_for(a_, rng) for _, a_ in parsed]
+                    before_ = tab.snapshot()
+                    st, tags_ = b.call("write", drv.write, *[(tx, v_) for (tx, _), v_ in zip(parsed, vals_)])
+                    res.ev()
+                    res.seen("multiwrite", len(parsed), tuple(sorted({a_["type"] for _, a_ in parsed})))
+                    wit_ = {"addresses": [tx for tx, _ in parsed], "values": vals_}
+                    if st != "ok" or not isinstance(tags_, list) or len(tags_) != len(parsed) or not all(bool(t_) for t_ in tags_):
+                        res.violation("multi-address-write-fails", f"write{tuple((tx, v_) for (tx, _), v_ in zip(parsed, vals_))!r:.160} -> {tags_!r:.200}", wit_)
+                        continue
+                    allowed_ = set()
+                    for (tx, a_), v_ in zip(parsed, vals_):
+                        got_ = refslc.expected_read(tab, a_)
+                        if not values_match(a_["type"], v_, got_):
+                            res.violation("multi-address-write-not-applied", f"write{tuple(t_ for t_, _ in parsed)!r} reported success for every address; {tx!r} holds {got_!r}, written {v_!r}", wit_)
+                            break
+                        s0_ = tab.word_index(a_["type"], a_["element"], a_["sub"])
+                        allowed_ |= {(a_["file"], s0_ + i_) for i_ in range(refslc.WORDS_PER_ELEMENT[a_["type"]])}
+                    after_ = tab.snapshot()
+                    changed_ = {(fn_, i_) for fn_, (_, w_) in after_.items() for i_, (x_, y_) in enumerate(zip(w_, before_[fn_][1])) if x_ != y_}
+                    if changed_ - allowed_:
+                        res.violation("multi-address-write-collateral", f"write{tuple(t_ for t_, _ in parsed)!r} changed words {sorted(changed_ - allowed_)[:4]} that no address of the call denotes", wit_)
                     continue
                 a = refslc.parse_address(text)
                 if op == "bad":
